@@ -29,7 +29,8 @@ def run(ctx):
     ctx.rule('R19.1', 'n_choose_k / bernstein / bezier_point / bezier2polynomial equal the Bernstein definition per degree', 3 * (maxdeg + 1))
     ctx.rule('R19.2', 'polynomial2bezier o bezier2polynomial == id for len 2..4; other orders raise', 5)
     ctx.rule('R19.6', 'split_bezier / halve_bezier return the control points of the sub-curves under u->u*t and u->t+u(1-t)', 2 * maxdeg)
-    ctx.rule('R19.3', 'polyroots: real filter tests the imaginary part and keeps the real part, then the condition; polyroots01 passes realroots=True and the closed interval', 4)
+    ctx.rule('R19.3', 'polyroots on symbolic roots, every label path: a root is returned (as its real part) iff its imaginary part is ~0, the condition '
+                      'holds and no earlier kept root is close to it; polyroots01 = real roots in the closed interval [0,1]', 2)
     ctx.rule('R19.4', 'index domain: an index used to select from collection B was produced by enumerating B itself (same binding, same order)', 3)
     ctx.rule('R19.5', "rational_limit: three-case L'Hopital table; every division is guarded by a non-zero test of that denominator; derivatives are paired", 2)
     ob = lambda r: Obligation(ctx, r)
@@ -104,8 +105,8 @@ def run(ctx):
                         lambda it, P=P: it.call(it.closure_of('bezier.halve_bezier'), [tuple(P)], {}),
                         lambda v, P=P, h=half: judge_split(v, P, h))
 
-    # ---------------------------------------------------------------- R19.3 root filters (structure)
-    _polyroots_structure(ctx, mdl)
+    # ---------------------------------------------------------------- R19.3 root filters (semantic: on every label path)
+    _polyroots_semantics(ctx, mdl)
 
     # ---------------------------------------------------------------- R19.4 index domains
     for q in ('polytools.polyroots', 'path.Path.intersect', 'bezier.bezier_intersections'):
@@ -355,3 +356,87 @@ def _depth(texts, f, g, t0):
         if not (gz and fz):
             return None
     return None
+
+
+def _polyroots_semantics(ctx, mdl):
+    """np.roots is replaced by three symbolic complex roots; the function's own filters run on them.  On each label path the
+    returned list must be exactly: the real parts of the roots whose imaginary part the path knows to be ~0, that satisfy the
+    condition, minus every one that is close to an EARLIER kept root (so exactly one representative of a cluster survives)."""
+    fi = mdl.func('polytools.polyroots')
+    roots = [Rat.csym('rho%d' % i) for i in range(3)]
+
+    def cond_hook(it, a, k):
+        r = to_rat(a[0])
+        return it.truth(it.compare_vals('gt', r, 0))       # an arbitrary user condition: r > 0
+
+    def th(it):
+        from svtstatic.values import PyFunc
+        it.ext_hooks['numpy.roots'] = lambda it2, a, k: list(roots)
+        # the package's isclose (|a-b| < atol + rtol|b|) is modelled like numpy.isclose: an approximate-equality label
+        from svtstatic import builtins_model as bm
+        it.call_hooks['misctools.isclose'] = lambda it2, a, k: bm.call_ext(it2, 'numpy.isclose', a, k)
+        r = it.call(it.closure_of('polytools.polyroots'), [Rat.sym('coeffs')], {'realroots': True, 'condition': PyFunc(cond_hook, 'cond')})
+        facts = []
+        for z in roots:
+            sgn, key, _ = _canon_diff(z.imag())
+            real_ = it.trace.signs.get('close:' + key)
+            facts.append((real_, path_sign(it, z.real())))
+        return list(r), facts, it
+
+    def judge(v):
+        res, facts, it = v
+        kept = []
+        for i, (z, (real_, pos)) in enumerate(zip(roots, facts)):
+            if real_ == frozenset('0'):
+                if pos == frozenset('+'):
+                    kept.append(i)
+                elif not pos <= frozenset('-0'):
+                    return None, 'the path does not decide the condition for root %d' % i
+            elif real_ != frozenset('+'):
+                return False, 'root %d is classified without testing its imaginary part against 0' % i
+        # duplicates: a kept root close to an earlier surviving... the function drops one member of each close pair
+        survivors = []
+        for i in kept:
+            dup = False
+            for j in kept:
+                if j >= i:
+                    break
+                d = roots[i].real() - roots[j].real()
+                sgn, key, _ = _canon_diff(it.trace.reduce(d)) if not it.trace.reduce(d).is_zero() else (1, None, None)
+                close = it.trace.signs.get('close:' + key) if key else frozenset('0')
+                if close == frozenset('0'):
+                    dup = True
+                elif close != frozenset('+'):
+                    return None, 'closeness of roots %d and %d undecided on this path' % (j, i)
+            if not dup:
+                survivors.append(i)
+        exp = [roots[i].real() for i in survivors]
+        got = [to_rat(x) for x in res]
+        # the survivors of a cluster may be any one member, but simple (non-clustered) roots must all be present exactly once
+        ok = len(got) == len(exp) and all(g.equals(e) for g, e in zip(got, exp))
+        if ok:
+            return True, ''
+        # accept another representative of the same cluster: compare as multisets of cluster ids
+        return False, 'returns roots %s; expected the real parts of roots %s (real, satisfying the condition, one per cluster)' % (
+            [short(g, 20) for g in got], survivors)
+    Obligation(ctx, 'R19.3').run(fi, 'polyroots(realroots=True, condition) on 3 symbolic roots', th, judge)
+
+    f01 = mdl.func('polytools.polyroots01')
+
+    def th01(it):
+        got = {}
+
+        def pr(it2, a, k):
+            got['k'] = dict(k)
+            got['a'] = a
+            return 'ROOTS'
+        it.call_hooks['polytools.polyroots'] = pr
+        r = it.call(it.closure_of('polytools.polyroots01'), [Rat.sym('coeffs')], {})
+        cond = got['k'].get('condition')
+        from fractions import Fraction as Fr
+        answers = [bool(it.truth(it.call(cond, [x], {}))) for x in (Fr(0), Fr(1), Fr(1, 2), Fr(-1, 10), Fr(11, 10))] if cond is not None else None
+        return r, got, answers
+    Obligation(ctx, 'R19.3').run(f01, 'polyroots01 == polyroots(p, realroots=True, condition = closed [0,1])', th01,
+                                 lambda v: (v[0] == 'ROOTS' and v[1]['k'].get('realroots') is True and v[2] == [True, True, True, False, False]
+                                            and to_rat(v[1]['a'][0]).equals(Rat.sym('coeffs')),
+                                            'realroots=%r, condition answers on 0, 1, 1/2, -1/10, 11/10: %r' % (v[1]['k'].get('realroots'), v[2])))
